@@ -6,17 +6,43 @@
 namespace AssignmentHelpers {
 
 /**
+ * 式が「指し先が const のポインタ」(const T*) かどうかを、式を評価せずに
+ * 宣言から判定する。
+ *  - ポインタ変数 / 仮引数: 変数の is_pointee_const
+ *  - 関数呼び出し f(...): f の宣言された戻り値型 (const T* f())。
+ *    戻り値の const は return された値ではなく宣言で決まる
+ *    (const int* getp() { return &G; } の結果は const int*)。
+ */
+inline bool is_pointer_to_const_expression(Interpreter &interpreter,
+                                           const ASTNode *expr) {
+    if (!expr) {
+        return false;
+    }
+    if (expr->node_type == ASTNodeType::AST_VARIABLE ||
+        expr->node_type == ASTNodeType::AST_IDENTIFIER) {
+        Variable *ptr_var = interpreter.find_variable(expr->name);
+        return ptr_var && ptr_var->is_pointee_const;
+    }
+    if (expr->node_type == ASTNodeType::AST_FUNC_CALL && !expr->left &&
+        !interpreter.find_variable(expr->name)) {
+        // レシーバーなしの通常の関数呼び出し（関数ポインタ変数経由は除く）
+        const ASTNode *func = interpreter.find_function(expr->name);
+        return func && func->node_type == ASTNodeType::AST_FUNC_DECL &&
+               func->is_pointee_const_qualifier;
+    }
+    return false;
+}
+
+/**
  * constポインタ経由での値変更をチェック
  * const T* 経由で *ptr = value や (*ptr).member = value を禁止する
+ * （ptr は const T* の変数、または const T* を返す関数呼び出し）
  */
 inline void check_const_pointer_modification(Interpreter &interpreter,
                                              const ASTNode *ptr_node) {
-    if (ptr_node && ptr_node->node_type == ASTNodeType::AST_VARIABLE) {
-        Variable *ptr_var = interpreter.find_variable(ptr_node->name);
-        if (ptr_var && ptr_var->is_pointee_const) {
-            throw std::runtime_error(
-                "Cannot modify value through pointer to const (const T*)");
-        }
+    if (is_pointer_to_const_expression(interpreter, ptr_node)) {
+        throw std::runtime_error(
+            "Cannot modify value through pointer to const (const T*)");
     }
 }
 
